@@ -257,8 +257,9 @@ class Ctx:
         ev = dict(property_id=self.prop, tier=self.tier, seed=self.seed, level='model_checking',
                   coverage=cov, assumptions=self.assumptions, wall_s=round(wall, 1),
                   violations=len(self.violations))
-        os.makedirs(os.path.join(VERIF, 'evidence'), exist_ok=True)
-        with open(os.path.join(VERIF, 'evidence', self.prop + '.json'), 'w') as fh:
+        evdir = os.environ.get('VP_EVIDENCE_DIR') or os.path.join(VERIF, 'evidence')
+        os.makedirs(evdir, exist_ok=True)
+        with open(os.path.join(evdir, self.prop + '.json'), 'w') as fh:
             json.dump(ev, fh, indent=1, sort_keys=True, default=str)
         for _, text in self.known_hits:
             print('KNOWN-FINDING: property=%s %s' % (self.prop, text))
